@@ -14,7 +14,7 @@ import sys
 from typing import Any, Dict, List, Optional, Tuple, Union
 
 from jsonargparse import ActionConfigFile, ActionYesNo, ArgumentParser, Namespace, lazy_instance
-from jsonargparse.typing import PositiveInt
+from jsonargparse.typing import PositiveFloat, PositiveInt
 
 from vf.fixtures import zoo
 from vf.gen.values import hostile_string
@@ -82,6 +82,9 @@ def shape_flat(eoe):
     p.add_argument("--choice", choices=["a", "b"])
     p.add_argument("--many", nargs="+", type=int)
     p.add_argument("--any", type=Any)
+    p.add_argument("--chs", nargs="+", choices=["a", "b"])
+    p.add_argument("--pf", type=PositiveFloat)
+    p.add_argument("--td", type=__import__("datetime").timedelta)
     return p
 
 
@@ -162,7 +165,7 @@ SHAPES = {"dcf": shape_dcf, "flat": shape_flat, "classes": shape_classes, "sub":
 
 OPTIONS = {
     "dcf": ["cfg", "num", "req", "name", "list", "g.x", "g"],
-    "flat": ["cfg", "num", "ratio", "name", "flag", "yes", "no_yes", "list", "dict", "tup", "opt", "color", "pos", "g.x", "g.h.y", "g", "g.h", "choice", "many", "any", "any.x", "name.x"],
+    "flat": ["cfg", "num", "ratio", "name", "flag", "yes", "no_yes", "list", "dict", "tup", "opt", "color", "pos", "g.x", "g.h.y", "g", "g.h", "choice", "many", "any", "any.x", "name.x", "chs", "pf", "td"],
     "classes": ["cfg", "sub", "osub", "subs", "dsub", "holder", "dc", "odc", "grp", "tp", "kw", "dec", "rng", "sub.init_args.a", "sub.class_path", "sub.a", "sub.init_args", "holder.child", "holder.init_args.child", "holder.init_args.child.init_args.a",
                 "dc.inner.name", "dc.inner.tags", "dc.pt", "grp.c", "kw.dict_kwargs", "kw.dict_kwargs.z", "kw.init_args.q", "subs.init_args.a", "dsub.k", "dsub.k.init_args.a", "sub.help", "osub.help"],
     "sub": ["cfg", "top", "fit.x", "x", "l", "y", "z", "fit", "test", "test.deep.z"],
@@ -174,7 +177,7 @@ BROKEN = [
     ("json-broken", "{"), ("json-broken", "[1,"), ("json-broken", '{"a": }'), ("yaml-broken", "a: b: c"), ("yaml-broken", "{a: [}"), ("yaml-broken", "\t- x"), ("yaml-broken", "key: 'unclosed"),
     ("yaml-self-alias", "&x [*x]"), ("yaml-self-alias", "&a {k: *a}"), ("yaml-alias", "[&a 1, *a]"), ("yaml-undefined-alias", "*nope"), ("yaml-tag", "!!python/object:os.system {}"), ("yaml-tag", "!!set {a, b}"), ("yaml-tag", "!!binary aGk="),
     ("yaml-merge", "{<<: {a: 1}, b: 2}"), ("yaml-multi-doc", "a: 1\n---\nb: 2"), ("yaml-directive", "%YAML 1.2\n---\na: 1"), ("deep-nesting", "[" * 60 + "]" * 60), ("deep-nesting-broken", "[" * 200),
-    ("cfg-key-in-cfg", "{cfg: {a: 1}}"), ("cfg-key-in-cfg", "{\"cfg\": 1}"), ("cfg-key-in-cfg", "{\"cfg\": \"other.yaml\"}"), ("int-lookalike", "0x_"), ("int-lookalike", "-0b_"), ("int-lookalike", "{\"a\": 0x__}"), ("cfg-null-section", "{\"fit\": null}"), ("cfg-null-section", "fit:"), ("cfg-unknown-subcommand", "{\"subcommand\": \"nope\"}"), ("float-lookalike", "._"), ("float-lookalike", ".__e+1"), ("float-lookalike", "{a: ._}"), ("isdigit-not-int", "²"), ("isdigit-not-int", "①"), ("isdigit-not-int", "-³"), ("isdigit-not-int", "٣"), ("class-bad-default", "vf.fixtures.zoo.BadDefault"),
+    ("cfg-key-in-cfg", "{cfg: {a: 1}}"), ("cfg-key-in-cfg", "{\"cfg\": 1}"), ("cfg-key-in-cfg", "{\"cfg\": \"other.yaml\"}"), ("td-overflow", "9999999999 days, 0:0:0"), ("td-overflow", "999999999999999999999999999999:0:0"), ("int-lookalike", "0x_"), ("int-lookalike", "-0b_"), ("int-lookalike", "{\"a\": 0x__}"), ("cfg-null-section", "{\"fit\": null}"), ("cfg-null-section", "fit:"), ("cfg-unknown-subcommand", "{\"subcommand\": \"nope\"}"), ("float-lookalike", "._"), ("float-lookalike", ".__e+1"), ("float-lookalike", "{a: ._}"), ("isdigit-not-int", "²"), ("isdigit-not-int", "①"), ("isdigit-not-int", "-³"), ("isdigit-not-int", "٣"), ("class-bad-default", "vf.fixtures.zoo.BadDefault"),
     ("nul", "a\x00b"), ("surrogate", "\udcff"), ("dash", "-"), ("ddash", "--"), ("empty", ""), ("blank", "   "), ("newline", "\n"), ("huge-int", "9" * 400), ("huge-exp", "1e999999"), ("bigint-key", "{1e999: 2}"),
     ("import-missing", "no.such.module.Cls"), ("import-nonclass", "os.path"), ("import-function", "os.getcwd"), ("import-module", "json"), ("import-builtin", "builtins.int"), ("import-dotted-junk", "a..b"), ("import-trailing-dot", "os."),
     ("class-wrong", "vf.fixtures.zoo.Unrelated"), ("class-abstract", "vf.fixtures.zoo.AbstractBase"), ("class-name-only", "SubA"), ("class-name-unknown", "NoSuchCls"),
@@ -197,6 +200,31 @@ def gen_value(rng, fx):
     return "hostile:" + c, s
 
 
+# values aimed at the type of one option: out-of-range numbers for the numeric and registered types, scalars and mappings
+# for list-valued options
+TYPED = {
+    "flat": {
+        "pf": ["9" * 400, "1e999", "-1e999", "1" + "0" * 400, "nan"],
+        "pos": ["9" * 400, "1e999", "1e400", "nan", "inf"],
+        "ratio": ["9" * 400, "1" + "0" * 400],
+        "num": ["9" * 5000, "1e999", "inf"],
+        "td": ["9999999999 days, 0:0:0", "9" * 30 + ":0:0", "1 days, 0:0:" + "9" * 400, "0:0:1e5"],
+        "chs": ["a", "3", "{a: 1}", "[a, c]", "[[a]]", "null"],
+        "many": ["1", "{a: 1}", "[1, x]", "[[1]]"],
+        "choice": ["[a]", "{a: 1}", "3"],
+    },
+    "classes": {"dec": ["1e999999999", "NaN", "sNaN", "9" * 400], "rng": ["range(1, 1" + "0" * 30 + ")", "range(0, 1, 0)", "range(" + "9" * 400 + ")"]},
+}
+
+
+def gen_value_for(rng, fx, shape, key):
+    """gen_value, with a share of values aimed at the option's type"""
+    typed = TYPED.get(shape, {}).get(key)
+    if typed and rng.random() < 0.3:
+        return "typed:" + key, rng.choice(typed)
+    return gen_value(rng, fx)
+
+
 def gen_argv(rng, shape, fx):
     n = rng.choice([1, 1, 2, 2, 3, 4, 6])
     argv, classes = [], []
@@ -215,7 +243,7 @@ def gen_argv(rng, shape, fx):
         else:
             opt = None
             ocls = "bare"
-        vcls, val = gen_value(rng, fx)
+        vcls, val = gen_value_for(rng, fx, shape, opt)
         if opt is None:
             tok = rng.choice([val, "--", "-", "-x", "---", "--=", "fit", "test", "deep", "--" + val])
             argv.append(tok)
@@ -251,7 +279,7 @@ def gen_text(rng, shape, fx):
     items, classes = [], []
     for _ in range(rng.choice([1, 2, 3])):
         key = rng.choice(OPTIONS[shape] + ["zz", "sub+", "list+", "", " ", "a b", "1", "null", "true", "~", "g.", ".g", "<<"])
-        cls, v = gen_value(rng, fx)
+        cls, v = gen_value_for(rng, fx, shape, key)
         style = rng.random()
         if style < 0.5:
             items.append(f"{json.dumps(key) if rng.random() < 0.5 else key}: {v}")
@@ -286,6 +314,8 @@ def gen_object(rng, shape, fx):
             obj[key] = junk()
         except TypeError:
             pass
+        if key in TYPED.get(shape, {}) and rng.random() < 0.3:
+            obj[key] = rng.choice([10**400, -(10**400), 3, "a", {"a": 1}, ["a", "c"], [[1]], float("inf"), 1e308 * 10, rng.choice(TYPED[shape][key])])
     r = rng.random()
     if r < 0.1:
         return rng.choice([Namespace(), {}, Namespace(num="x"), Namespace(g=Namespace(x="q")), {"g": Namespace(zz=1)}]), ["object:namespace"]
@@ -302,7 +332,7 @@ def gen_env(rng, shape, fx):
     for _ in range(rng.choice([1, 2, 3])):
         opt = rng.choice(OPTIONS[shape] + ["zz"])
         name = "APP_" + opt.replace(".", "__").upper()
-        cls, v = gen_value(rng, fx)
+        cls, v = gen_value_for(rng, fx, shape, opt)
         if "\x00" in v or "\udcff" in v:
             continue
         env[name] = v
